@@ -303,6 +303,22 @@ def run(prog, rep, tier):
                 rep.violation(R196, inst, "%s: after writing %s to stdout the printed count grows by the length of %s" % (p.split("::")[-1], sorted(xr), sorted(adds[0])))
     rep.floor(R196, 20)
 
+    # ------------------------------------------------------------ R19.8
+    R198 = rep.rule("R19.8", "first/last printed datetime are the running minimum/maximum on every path")
+    import accum
+    ub = prog.body(SP + "summaryprint_update_dt")
+    for field, direction in (("dt_first", "min"), ("dt_last", "max")):
+        n_in, n_paths, problems = accum.check(ub, field, direction)
+        inst = "%s|%s" % (ub.path, field)
+        rep.examined(R198, inst, sample={"field": field, "keeps": direction, "abstract_inputs": n_in, "paths": n_paths})
+        for kind, what, touched, endbb in problems[:1]:
+            if kind == "missing":
+                rep.violation(R198, inst, "summaryprint_update_dt: when %s there is a path to return that %s and leaves %s unchanged; the reported %s printed datetime is then wrong (e.g. blank after a single message)" % (
+                    what, "tests it" if touched else "never looks at it", field, "first" if direction == "min" else "last"))
+            else:
+                rep.violation(R198, inst, "summaryprint_update_dt: when %s the field is overwritten although the value is not %s" % (what, "earlier" if direction == "min" else "later"))
+    rep.floor("R19.8", 2)
+
     return rep.finish(
         "Static necessary-condition check of the summary bookkeeping: the four per-kind updaters write bytes/flushed/lines/own counter/datetimes "
         "alike; in every message arm the per-file and total updaters receive exactly the print call's returned (printed, flushed); every direct "
